@@ -1,1 +1,329 @@
-fn main() {}
+//! C11 harness, client layer: the paths of mithril-client that turn a VERIFIED proof / a delivered stake
+//! distribution into the protocol message that is compared with the certificate —
+//! `MessageBuilder::compute_cardano_transactions_proofs_message`, `compute_cardano_transactions_proofs_v2_message`,
+//! `compute_cardano_blocks_proofs_message`, `compute_cardano_stake_distribution_message` (the distribution fetched
+//! through the real `CardanoStakeDistributionClient`) and `MithrilCertificate::match_message`.
+//!
+//! K  per case one request `c11.rebuild`: the certificate's own protocol message, the parts the builder is
+//!    expected to overwrite with the values of the response, and the certificate's signed digest — the Lean model
+//!    (`ClientMsg.rebuild`, SHA-256 in Lean) answers the digest of the rebuilt message and the verdict of
+//!    `match_message`; plus the stake-distribution root of what the client delivered (`c11.mkroot`).
+//! S  `match_message` is true iff the message rebuilt from the response equals, part by part, the message that was
+//!    signed (root, block number, offset / epoch and distribution, and every other part of the certificate's message) —
+//!    the signed values and the response values are altered in turn. The oracle compares values; it calls neither the
+//!    builder nor the digest.
+use std::collections::BTreeMap;
+use std::sync::Arc;
+
+use async_trait::async_trait;
+use hutil::{hex, Args, Rng, Sink};
+use mithril_client::cardano_stake_distribution_client::{CardanoStakeDistributionAggregatorRequest, CardanoStakeDistributionClient};
+use mithril_client::{CardanoStakeDistribution, CardanoStakeDistributionListItem, MessageBuilder, MithrilCertificate, MithrilResult};
+use mithril_common::crypto_helper::{MKMap, MKMapNode, MKTree, MKTreeNode, MKTreeStoreInMemory, ProtocolMkProof};
+use mithril_common::entities::{
+    BlockNumber, BlockNumberOffset, BlockRange, CardanoBlock, CardanoTransaction, Epoch, EpochSpecifier, IntoMKTreeNode, ProtocolMessage,
+    ProtocolMessagePartKey as K, SlotNumber,
+};
+use mithril_common::messages::{
+    CardanoBlockMessagePart, CardanoBlocksProofsMessage, CardanoTransactionMessagePart, CardanoTransactionsProofsMessage,
+    CardanoTransactionsProofsV2Message, CardanoTransactionsSetProofMessagePart, MkSetProofMessagePart,
+};
+use mithril_common::test::double::Dummy;
+
+type S = MKTreeStoreInMemory;
+type Map = MKMap<BlockRange, MKMapNode<BlockRange, S>, S>;
+
+fn map_of(leaves_by_range: &BTreeMap<u64, Vec<Vec<u8>>>) -> Map {
+    let entries: Vec<(BlockRange, MKMapNode<BlockRange, S>)> = leaves_by_range
+        .iter()
+        .map(|(start, ls)| {
+            let nodes: Vec<MKTreeNode> = ls.iter().map(|l| MKTreeNode::new(l.clone())).collect();
+            (BlockRange::from_block_number(BlockNumber(*start)), MKMapNode::Tree(Arc::new(MKTree::<S>::new(&nodes).unwrap())))
+        })
+        .collect();
+    MKMap::new(&entries).unwrap()
+}
+
+/// ordinal of a part key in the order of the message's map (the order of the enum)
+fn ord(k: &K) -> usize {
+    let all = [
+        K::SnapshotDigest, K::CardanoTransactionsMerkleRoot, K::CardanoBlocksTransactionsMerkleRoot, K::NextAggregateVerificationKey,
+        K::NextProtocolParameters, K::CurrentEpoch, K::LatestBlockNumber, K::CardanoBlocksTransactionsBlockNumberOffset,
+        K::CardanoStakeDistributionEpoch, K::CardanoStakeDistributionMerkleRoot, K::CardanoDatabaseMerkleRoot,
+    ];
+    let mut sorted = all.to_vec();
+    sorted.sort();
+    sorted.iter().position(|x| x == k).expect("a part key outside the table")
+}
+
+fn parts_line(pm: &BTreeMap<K, String>) -> String {
+    format!("[{}]", pm.iter().map(|(k, v)| format!("({},{})", ord(k), hex(v.as_bytes()))).collect::<Vec<_>>().join(","))
+}
+fn sets_line(sets: &[(K, String)]) -> String {
+    format!("[{}]", sets.iter().map(|(k, v)| format!("({},{})", ord(k), hex(v.as_bytes()))).collect::<Vec<_>>().join(","))
+}
+
+/// a certificate as the client holds it after the chain verification: `signed_message` is the digest the
+/// multi-signature was verified over; `own` is the protocol message the certificate carries
+fn certificate(own: &ProtocolMessage, signed_digest: &str) -> MithrilCertificate {
+    let mut c = MithrilCertificate::dummy();
+    c.protocol_message = own.clone();
+    c.signed_message = signed_digest.to_string();
+    c
+}
+
+fn pm_of(parts: &BTreeMap<K, String>) -> ProtocolMessage {
+    let mut pm = ProtocolMessage::new();
+    for (k, v) in parts {
+        pm.set_message_part(*k, v.clone());
+    }
+    pm
+}
+
+struct Requester(Option<CardanoStakeDistribution>);
+#[async_trait]
+impl CardanoStakeDistributionAggregatorRequest for Requester {
+    async fn list_latest(&self) -> MithrilResult<Vec<CardanoStakeDistributionListItem>> {
+        Ok(vec![])
+    }
+    async fn get_by_hash(&self, _hash: &str) -> MithrilResult<Option<CardanoStakeDistribution>> {
+        Ok(self.0.clone())
+    }
+    async fn get_by_epoch(&self, _s: EpochSpecifier) -> MithrilResult<Option<CardanoStakeDistribution>> {
+        Ok(self.0.clone())
+    }
+}
+
+/// one case: the certificate's own message, what was signed, what the builder returned, what it had to write
+#[allow(clippy::too_many_arguments)]
+fn judge(sink: &mut Sink, tag: &str, own: &BTreeMap<K, String>, signed: &BTreeMap<K, String>, cert: &MithrilCertificate, rebuilt: &ProtocolMessage, sets: &[(K, String)], known_class: Option<&'static str>) {
+    let matches = cert.match_message(rebuilt);
+    let req = format!("c11.rebuild cert={} set={} signed={}", parts_line(own), sets_line(sets), cert.signed_message);
+    let i = sink.case(tag, &req, &format!("{} {}", rebuilt.compute_hash(), matches as u8));
+    // oracle: the certificate's own parts, overwritten with the response's values, against the signed parts
+    let mut expect = own.clone();
+    for (k, v) in sets {
+        expect.insert(*k, v.clone());
+    }
+    let same = expect == *signed;
+    if matches != same {
+        let diff: Vec<String> = expect.iter().filter(|(k, v)| signed.get(*k) != Some(*v)).map(|(k, v)| format!("{}: rebuilt {} signed {}", k, &v[..v.len().min(24)], signed.get(k).map(|s| &s[..s.len().min(24)]).unwrap_or("-"))).collect();
+        let class = known_class.unwrap_or(if matches { "message-binding" } else { "message-rejected" });
+        sink.sfail(i, class, &format!("{}: match_message = {} although the message built from the response {} the signed one ({})", tag, matches, if same { "is" } else { "is not" }, diff.join("; ")), &req);
+    }
+}
+
+fn main() {
+    let args = Args::parse();
+    let mut rng = Rng::new(args.seed);
+    let mut sink = Sink::new(&args);
+    let rt = tokio::runtime::Builder::new_current_thread().enable_all().build().unwrap();
+    let builder = MessageBuilder::new();
+    let worlds = if args.thorough() { 300 } else { 40 };
+
+    for _w in 0..worlds {
+        // ---- a chain and its two certified trees -----------------------------------------------------------------------
+        let nblocks = rng.range(2, if args.thorough() { 90 } else { 45 });
+        let mut txs: Vec<CardanoTransaction> = vec![];
+        let mut blocks: Vec<CardanoBlock> = vec![];
+        for b in 0..nblocks {
+            let bh = hex(&rng.bytes(32));
+            let slot = b * 20 + rng.below(20);
+            blocks.push(CardanoBlock::new(bh.clone(), BlockNumber(b), SlotNumber(slot)));
+            for _ in 0..rng.range(if b == 0 { 1 } else { 0 }, 3) {
+                txs.push(CardanoTransaction::new(hex(&rng.bytes(32)), BlockNumber(b), SlotNumber(slot), bh.clone()));
+            }
+        }
+        let mut legacy: BTreeMap<u64, Vec<Vec<u8>>> = BTreeMap::new();
+        let mut v2: BTreeMap<u64, Vec<Vec<u8>>> = BTreeMap::new();
+        for t in &txs { legacy.entry(t.block_number.0 / 15 * 15).or_default().push(t.transaction_hash.clone().into_bytes()); }
+        for b in &blocks { v2.entry(b.block_number.0 / 15 * 15).or_default().push(b.clone().into_mk_tree_node().to_vec()); }
+        for t in &txs { v2.entry(t.block_number.0 / 15 * 15).or_default().push(t.clone().into_mk_tree_node().to_vec()); }
+        // "another tree": the same chain with one more transaction — a valid proof under a root that was not signed
+        let extra = CardanoTransaction::new(hex(&rng.bytes(32)), BlockNumber(0), blocks[0].slot_number, blocks[0].block_hash.clone());
+        let mut legacy_o = legacy.clone(); legacy_o.entry(0).or_default().push(extra.transaction_hash.clone().into_bytes());
+        let mut v2_o = v2.clone(); v2_o.entry(0).or_default().push(extra.clone().into_mk_tree_node().to_vec());
+        let (lm, lmo, vm, vmo) = (map_of(&legacy), map_of(&legacy_o), map_of(&v2), map_of(&v2_o));
+        let lroot = lm.compute_root().unwrap().to_hex();
+        let vroot = vm.compute_root().unwrap().to_hex();
+        let latest = nblocks - 1;
+        let offset = rng.below(200);
+        let epoch = rng.range(1, 900);
+        let avk = hex(&rng.bytes(40));
+        let npp = hex(&rng.bytes(16));
+        let pick_tx = |rng: &mut Rng| -> Vec<CardanoTransaction> { let mut q: Vec<_> = txs.iter().filter(|_| rng.chance(1, 4)).cloned().collect(); if q.is_empty() { q.push(txs[0].clone()); } q };
+        let pick_blk = |rng: &mut Rng| -> Vec<CardanoBlock> { let mut q: Vec<_> = blocks.iter().filter(|_| rng.chance(1, 5)).cloned().collect(); if q.is_empty() { q.push(blocks[0].clone()); } q };
+        // the other parts every certificate message carries
+        let common: BTreeMap<K, String> = BTreeMap::from([(K::NextAggregateVerificationKey, avk.clone()), (K::NextProtocolParameters, npp.clone()), (K::CurrentEpoch, epoch.to_string())]);
+        // alterations of what was signed / of the certificate's own copy
+        let alter = |rng: &mut Rng, parts: &BTreeMap<K, String>, k: K| -> BTreeMap<K, String> {
+            let mut p = parts.clone();
+            let v = p.get(&k).cloned().unwrap_or_default();
+            let nv = if !v.is_empty() && v.bytes().all(|c| c.is_ascii_digit()) { (v.parse::<u64>().unwrap() + rng.range(1, 3)).to_string() } else { let mut b = v.into_bytes(); if b.is_empty() { b.push(b'0') } else { let i = rng.below(b.len() as u64) as usize; b[i] = if b[i] == b'0' { b'1' } else { b'0' }; } String::from_utf8(b).unwrap() };
+            p.insert(k, nv);
+            p
+        };
+
+        // ================================================================ legacy transactions ===============================
+        {
+            let mut signed = common.clone();
+            signed.insert(K::CardanoTransactionsMerkleRoot, lroot.clone());
+            signed.insert(K::LatestBlockNumber, latest.to_string());
+            let digest = pm_of(&signed).compute_hash();
+            let q = pick_tx(&mut rng);
+            let hashes: Vec<String> = q.iter().map(|t| t.transaction_hash.clone()).collect();
+            let mk = |m: &Map, latest: u64| {
+                let proof = m.compute_proof(&hashes.iter().map(|h| MKTreeNode::from(h.clone())).collect::<Vec<_>>()).unwrap();
+                CardanoTransactionsProofsMessage::new("cert", vec![CardanoTransactionsSetProofMessagePart { transactions_hashes: hashes.clone(), proof: ProtocolMkProof::new(proof).to_json_hex().unwrap() }], vec![], BlockNumber(latest))
+            };
+            // (tag, certificate's own parts, signed parts, response)
+            let mut cases: Vec<(&str, BTreeMap<K, String>, BTreeMap<K, String>, CardanoTransactionsProofsMessage)> = vec![
+                ("legacy-honest", signed.clone(), signed.clone(), mk(&lm, latest)),
+                ("legacy-response-block-number-altered", signed.clone(), signed.clone(), mk(&lm, latest + rng.range(1, 30))),
+                ("legacy-response-block-number-lower", signed.clone(), signed.clone(), mk(&lm, latest.saturating_sub(1))),
+                ("legacy-response-proof-under-other-root", signed.clone(), signed.clone(), mk(&lmo, latest)),
+                ("legacy-signed-other-block-number", signed.clone(), alter(&mut rng, &signed, K::LatestBlockNumber), mk(&lm, latest)),
+                ("legacy-signed-other-root", signed.clone(), alter(&mut rng, &signed, K::CardanoTransactionsMerkleRoot), mk(&lm, latest)),
+                ("legacy-signed-other-avk", signed.clone(), alter(&mut rng, &signed, K::NextAggregateVerificationKey), mk(&lm, latest)),
+                ("legacy-signed-other-epoch", signed.clone(), alter(&mut rng, &signed, K::CurrentEpoch), mk(&lm, latest)),
+                // the certificate's OWN copy of the overwritten parts does not matter, of the others it does
+                ("legacy-own-root-garbled", alter(&mut rng, &signed, K::CardanoTransactionsMerkleRoot), signed.clone(), mk(&lm, latest)),
+                ("legacy-own-block-number-garbled", alter(&mut rng, &signed, K::LatestBlockNumber), signed.clone(), mk(&lm, latest)),
+                ("legacy-own-avk-garbled", alter(&mut rng, &signed, K::NextAggregateVerificationKey), signed.clone(), mk(&lm, latest)),
+                ("legacy-own-parameters-garbled", alter(&mut rng, &signed, K::NextProtocolParameters), signed.clone(), mk(&lm, latest)),
+            ];
+            { let mut own = signed.clone(); own.remove(&K::LatestBlockNumber); own.remove(&K::CardanoTransactionsMerkleRoot); cases.push(("legacy-own-without-the-parts", own, signed.clone(), mk(&lm, latest))); }
+            { let mut own = signed.clone(); own.insert(K::SnapshotDigest, hex(&rng.bytes(32))); cases.push(("legacy-own-extra-part", own, signed.clone(), mk(&lm, latest))); }
+            { let mut s2 = signed.clone(); s2.insert(K::CardanoBlocksTransactionsBlockNumberOffset, offset.to_string()); cases.push(("legacy-signed-with-extra-part", signed.clone(), s2, mk(&lm, latest))); }
+            for (tag, own, sgn, resp) in cases {
+                if !sink.wanted() { sink.skip(); continue; }
+                let d = if sgn == signed { digest.clone() } else { pm_of(&sgn).compute_hash() };
+                let cert = certificate(&pm_of(&own), &d);
+                let verified = match resp.verify() { Ok(v) => v, Err(e) => { sink.note(&format!("verify-failed-{}", tag), &format!("{:?}", e)); sink.skip(); continue; } };
+                let rebuilt = builder.compute_cardano_transactions_proofs_message(&cert, &verified);
+                let root = { let mut pm = ProtocolMessage::new(); verified.fill_protocol_message(&mut pm); pm.get_message_part(&K::CardanoTransactionsMerkleRoot).cloned().unwrap_or_default() };
+                let sets = vec![(K::CardanoTransactionsMerkleRoot, root), (K::LatestBlockNumber, resp.latest_block_number.to_string())];
+                judge(&mut sink, tag, &own, &sgn, &cert, &rebuilt, &sets, None);
+            }
+        }
+
+        // ================================================================ v2 transactions and blocks ========================
+        for kind_tx in [true, false] {
+            let mut signed = common.clone();
+            signed.insert(K::CardanoBlocksTransactionsMerkleRoot, vroot.clone());
+            signed.insert(K::LatestBlockNumber, latest.to_string());
+            signed.insert(K::CardanoBlocksTransactionsBlockNumberOffset, offset.to_string());
+            let qt = pick_tx(&mut rng);
+            let qb = pick_blk(&mut rng);
+            // a response: (map the proof is made from, latest block number, offset)
+            let variants: Vec<(&str, bool, u64, u64, BTreeMap<K, String>, BTreeMap<K, String>)> = vec![
+                ("honest", false, latest, offset, signed.clone(), signed.clone()),
+                ("response-block-number-altered", false, latest + rng.range(1, 30), offset, signed.clone(), signed.clone()),
+                ("response-offset-altered", false, latest, offset + rng.range(1, 9), signed.clone(), signed.clone()),
+                ("response-offset-and-block-swapped", false, offset, latest, signed.clone(), signed.clone()),
+                ("response-proof-under-other-root", true, latest, offset, signed.clone(), signed.clone()),
+                ("signed-other-block-number", false, latest, offset, signed.clone(), alter(&mut rng, &signed, K::LatestBlockNumber)),
+                ("signed-other-offset", false, latest, offset, signed.clone(), alter(&mut rng, &signed, K::CardanoBlocksTransactionsBlockNumberOffset)),
+                ("signed-other-root", false, latest, offset, signed.clone(), alter(&mut rng, &signed, K::CardanoBlocksTransactionsMerkleRoot)),
+                ("signed-other-epoch", false, latest, offset, signed.clone(), alter(&mut rng, &signed, K::CurrentEpoch)),
+                ("own-root-garbled", false, latest, offset, alter(&mut rng, &signed, K::CardanoBlocksTransactionsMerkleRoot), signed.clone()),
+                ("own-offset-garbled", false, latest, offset, alter(&mut rng, &signed, K::CardanoBlocksTransactionsBlockNumberOffset), signed.clone()),
+                ("own-avk-garbled", false, latest, offset, alter(&mut rng, &signed, K::NextAggregateVerificationKey), signed.clone()),
+                ("own-without-the-parts", false, latest, offset, common.clone(), signed.clone()),
+                ("signed-legacy-root-key-instead", false, latest, offset, signed.clone(), { let mut s2 = signed.clone(); s2.remove(&K::CardanoBlocksTransactionsMerkleRoot); s2.insert(K::CardanoTransactionsMerkleRoot, vroot.clone()); s2 }),
+            ];
+            for (name, other, lat, off, own, sgn) in variants {
+                if !sink.wanted() { sink.skip(); continue; }
+                let tag = format!("{}-{}", if kind_tx { "v2tx" } else { "v2blk" }, name);
+                let cert = certificate(&pm_of(&own), &pm_of(&sgn).compute_hash());
+                let m = if other { &vmo } else { &vm };
+                let (rebuilt, root) = if kind_tx {
+                    let proof = m.compute_proof(&qt.iter().map(|t| t.clone().into_mk_tree_node()).collect::<Vec<_>>()).unwrap();
+                    let part = MkSetProofMessagePart::<CardanoTransactionMessagePart> { items: qt.iter().cloned().map(Into::into).collect(), proof: ProtocolMkProof::new(proof).to_bytes_hex().unwrap() };
+                    let resp = CardanoTransactionsProofsV2Message::new("cert", Some(part), vec![], BlockNumber(lat), BlockNumberOffset(off));
+                    let verified = resp.verify().unwrap();
+                    (builder.compute_cardano_transactions_proofs_v2_message(&cert, &verified), verified.certified_merkle_root().to_string())
+                } else {
+                    let proof = m.compute_proof(&qb.iter().map(|t| t.clone().into_mk_tree_node()).collect::<Vec<_>>()).unwrap();
+                    let part = MkSetProofMessagePart::<CardanoBlockMessagePart> { items: qb.iter().cloned().map(Into::into).collect(), proof: ProtocolMkProof::new(proof).to_bytes_hex().unwrap() };
+                    let resp = CardanoBlocksProofsMessage::new("cert", Some(part), vec![], BlockNumber(lat), BlockNumberOffset(off));
+                    let verified = resp.verify().unwrap();
+                    (builder.compute_cardano_blocks_proofs_message(&cert, &verified), verified.certified_merkle_root().to_string())
+                };
+                let sets = vec![(K::CardanoBlocksTransactionsMerkleRoot, root), (K::LatestBlockNumber, lat.to_string()), (K::CardanoBlocksTransactionsBlockNumberOffset, off.to_string())];
+                judge(&mut sink, &tag, &own, &sgn, &cert, &rebuilt, &sets, None);
+            }
+        }
+
+        // ================================================================ stake distribution ================================
+        {
+            let npools = rng.range(1, 40) as usize;
+            let mut sd: BTreeMap<String, u64> = BTreeMap::new();
+            for _ in 0..npools { sd.insert(format!("pool1{}", hex(&rng.bytes(26))), rng.range(10, 1 << 40)); }
+            let sd_epoch = rng.range(1, 900);
+            let root_of = |d: &BTreeMap<String, u64>| -> String {
+                // the certified root of a distribution: the aggregator-side signable builder's own function
+                mithril_common::signable_builder::CardanoStakeDistributionSignableBuilder::compute_merkle_tree_from_stake_distribution(d.clone()).unwrap().compute_root().unwrap().to_hex()
+            };
+            let leaves_of = |d: &BTreeMap<String, u64>| -> Vec<String> { d.iter().map(|(k, v)| format!("{}{}", k, v)).collect() };
+            let mut signed = common.clone();
+            signed.insert(K::CardanoStakeDistributionEpoch, sd_epoch.to_string());
+            signed.insert(K::CardanoStakeDistributionMerkleRoot, root_of(&sd));
+            let (k0, v0) = sd.iter().next().map(|(k, v)| (k.clone(), *v)).unwrap();
+            let (kl, vl) = sd.iter().next_back().map(|(k, v)| (k.clone(), *v)).unwrap();
+            // delivered distributions
+            let mut deliveries: Vec<(&str, BTreeMap<String, u64>, u64)> = vec![("sd-honest", sd.clone(), sd_epoch)];
+            deliveries.push(("sd-epoch-altered", sd.clone(), sd_epoch + 1));
+            { let mut d = sd.clone(); d.insert(k0.clone(), v0 + 1); deliveries.push(("sd-stake-altered", d, sd_epoch)); }
+            { let mut d = sd.clone(); d.remove(&k0); d.insert(format!("{}x", k0), v0); deliveries.push(("sd-pool-renamed", d, sd_epoch)); }
+            { let mut d = sd.clone(); d.insert(format!("pool1{}", hex(&rng.bytes(26))), 1); deliveries.push(("sd-pool-added", d, sd_epoch)); }
+            if sd.len() > 1 { let mut d = sd.clone(); d.remove(&kl); deliveries.push(("sd-pool-removed", d, sd_epoch)); }
+            if sd.len() > 1 { let mut d = sd.clone(); d.insert(k0.clone(), vl); d.insert(kl.clone(), v0); deliveries.push(("sd-stakes-swapped", d, sd_epoch)); }
+            {
+                // a digit moved from the stake into the identifier: same leaf (the known finding) when the order is kept
+                let digits = v0.to_string();
+                if digits.len() >= 2 && !digits[1..].starts_with('0') {
+                    let mut d = sd.clone(); d.remove(&k0); d.insert(format!("{}{}", k0, &digits[..1]), digits[1..].parse().unwrap());
+                    deliveries.push(("sd-digit-moved", d, sd_epoch));
+                }
+            }
+            for (tag, delivered, ep) in deliveries {
+                if !sink.wanted() { sink.skip(); sink.skip(); continue; }
+                let msg = CardanoStakeDistribution { epoch: Epoch(ep), hash: "sd-hash".into(), certificate_hash: "cert".into(), stake_distribution: delivered.clone().into_iter().collect(), created_at: Default::default() };
+                // through the real client (a pass-through of what the aggregator answers)
+                let client = CardanoStakeDistributionClient::new(Arc::new(Requester(Some(msg))));
+                let got = rt.block_on(client.get_by_epoch(Epoch(ep))).unwrap().unwrap();
+                let cert = certificate(&pm_of(&signed), &pm_of(&signed).compute_hash());
+                let rebuilt = builder.compute_cardano_stake_distribution_message(&cert, &got).unwrap();
+                let got_map: BTreeMap<String, u64> = got.stake_distribution.iter().map(|(k, v)| (k.clone(), *v)).collect();
+                // K: the root the client computed, against the Lean tree builder over the delivered leaves
+                let leaves = leaves_of(&got_map);
+                sink.case(&format!("{}-root", tag), &format!("c11.mkroot leaves=[{}]", leaves.iter().map(|l| hex(l.as_bytes())).collect::<Vec<_>>().join(",")), &format!("ok {}", rebuilt.get_message_part(&K::CardanoStakeDistributionMerkleRoot).cloned().unwrap_or_default()));
+                // S: exactness of the verified distribution — equal leaves with another mapping is the known class
+                let same_mapping = got_map == sd;
+                let same_leaves = leaves == leaves_of(&sd);
+                let sets = vec![(K::CardanoStakeDistributionEpoch, got.epoch.to_string()), (K::CardanoStakeDistributionMerkleRoot, root_of(&got_map))];
+                judge(&mut sink, tag, &signed, &signed, &cert, &rebuilt, &sets, None);
+                let matches = cert.match_message(&rebuilt);
+                if matches && !(same_mapping && ep == sd_epoch) {
+                    let class = if same_leaves && ep == sd_epoch { "stake-leaf" } else { "stake-distribution" };
+                    sink.sfail(sink.next_index() - 1, class, &format!("{}: the delivered distribution (epoch {}) is not the certified mapping (epoch {}) but its message matches the certificate", tag, ep, sd_epoch), "stake distribution");
+                }
+                if !matches && same_mapping && ep == sd_epoch {
+                    sink.sfail(sink.next_index() - 1, "message-rejected", &format!("{}: the certified distribution is rejected", tag), "stake distribution");
+                }
+            }
+            // the certificate signed another epoch / another root
+            for (tag, key) in [("sd-signed-other-epoch", K::CardanoStakeDistributionEpoch), ("sd-signed-other-root", K::CardanoStakeDistributionMerkleRoot), ("sd-signed-other-avk", K::NextAggregateVerificationKey)] {
+                if !sink.wanted() { sink.skip(); continue; }
+                let sgn = alter(&mut rng, &signed, key);
+                let msg = CardanoStakeDistribution { epoch: Epoch(sd_epoch), hash: "sd-hash".into(), certificate_hash: "cert".into(), stake_distribution: sd.clone().into_iter().collect(), created_at: Default::default() };
+                let cert = certificate(&pm_of(&signed), &pm_of(&sgn).compute_hash());
+                let rebuilt = builder.compute_cardano_stake_distribution_message(&cert, &msg).unwrap();
+                let sets = vec![(K::CardanoStakeDistributionEpoch, sd_epoch.to_string()), (K::CardanoStakeDistributionMerkleRoot, root_of(&sd))];
+                judge(&mut sink, tag, &signed, &sgn, &cert, &rebuilt, &sets, None);
+            }
+        }
+    }
+    sink.finish();
+}
